@@ -62,21 +62,21 @@ Definition from_hex (c : byte) : option N :=
   else if (65 <=? n) && (n <=? 70) then Some (n - 55)
   else None.
 
-Inductive hres := HOk (h : bytes) | HBad (c : byte) | HLen.
+Inductive hexres := HexOk (h : bytes) | HexBad (c : byte) | HexLen.
 
 (** hex.Decode: pairs from the left, the first invalid byte is reported (InvalidByteError);
     a trailing single byte is checked for validity before ErrLength is reported *)
-Fixpoint hex_dec (s : bytes) : hres :=
+Fixpoint hex_dec (s : bytes) : hexres :=
   match s with
-  | [] => HOk []
-  | [p] => match from_hex p with None => HBad p | Some _ => HLen end
+  | [] => HexOk []
+  | [p] => match from_hex p with None => HexBad p | Some _ => HexLen end
   | p :: q :: r =>
     match from_hex p with
-    | None => HBad p
+    | None => HexBad p
     | Some a =>
       match from_hex q with
-      | None => HBad q
-      | Some b => match hex_dec r with HOk l => HOk (Nb (16 * a + b) :: l) | e => e end
+      | None => HexBad q
+      | Some b => match hex_dec r with HexOk l => HexOk (Nb (16 * a + b) :: l) | e => e end
       end
     end
   end.
@@ -94,9 +94,9 @@ Definition unmarshal_json (d : bytes) : dres :=
   | c :: r =>
     if byte_eqb c dq && byte_eqb (last r x00) dq then
       match hex_dec (removelast r) with
-      | HOk h => DOk h
-      | HBad b => DErrByte b
-      | HLen => DErrLen
+      | HexOk h => DOk h
+      | HexBad b => DErrByte b
+      | HexLen => DErrLen
       end
     else DErrQuote
   end.
